@@ -1005,6 +1005,15 @@ func c04BatchRequest(p *Prog, r *Report, R4 string) {
 		}
 	}
 	okPos = okPos && tagFrom != "" && elemBytes.Args[1].String() == tagFrom
+	// the element is confined to the declared list: decoded from data[i:end] with
+	// end = offset + declared length (an open-ended data[i:] lets an element
+	// straddle the end of the list)
+	if okPos {
+		hi := elemBytes.Args[2].String()
+		cv := "call<quicwire.ConsumeVarint>(param:1)"
+		confined := hi != "const:nil" && strings.Contains(hi, "extract<0>("+cv+")") && strings.Contains(hi, "extract<1>("+cv+")")
+		r.Check(confined, R4, name+": each element is decoded from within the declared list", p.InstrPos(u), "data[i:end], end = prefix length + declared length", "the element is decoded from "+clip(elemBytes.String(), 200)+", which is not bounded by the declared end of the list")
+	}
 	r.Check(okPos, R4, name+": tag and element are read at the same offset of the input", p.InstrPos(u), "data[i:i+2] and data[i:...]", "the tag is read at offset "+tagFrom+" but the element is decoded from "+clip(elemBytes.String(), 200))
 	// success of the element decode dominates the append and the advance; advance = len(elem.Marshal())
 	adv := false
